@@ -4,7 +4,7 @@
 use std::sync::Arc;
 
 use fst::automaton::{Levenshtein, LevenshteinError};
-use fst::{Automaton, IntoStreamer, Map, Set};
+use fst::{Automaton, IntoStreamer, Map, Set, Streamer};
 use serde_json::{json, Value};
 
 use crate::ev::{guard, unit, Plan, Tier};
@@ -104,6 +104,35 @@ pub fn run_search(q: &str, d: u32, set: &Set<Vec<u8>>, map: &Map<Vec<u8>>, keys_
         let gotm = map.search(&lev).into_stream().into_str_keys().map_err(|e| format!("{:?}", e))?;
         if gotm != want {
             return Err(format!("Map::search(Levenshtein({:?},{})) differs", q, d));
+        }
+        // bounded searches, with and without states, at matching keys (first, middle, last)
+        if !want.is_empty() {
+            for b in [&want[0], &want[want.len() / 2], &want[want.len() - 1]] {
+                for kind in 0..4 {
+                    let keep = |k: &&String| match kind { 0 => *k >= b, 1 => *k > b, 2 => *k <= b, _ => *k < b };
+                    let wb: Vec<String> = want.iter().filter(keep).cloned().collect();
+                    let sb = set.search(&lev);
+                    let sb = match kind { 0 => sb.ge(b), 1 => sb.gt(b), 2 => sb.le(b), _ => sb.lt(b) };
+                    let got = sb.into_stream().into_strs().map_err(|e| format!("{:?}", e))?;
+                    let ws = set.search_with_state(&lev);
+                    let ws = match kind { 0 => ws.ge(b), 1 => ws.gt(b), 2 => ws.le(b), _ => ws.lt(b) };
+                    let mut st = ws.into_stream();
+                    let mut gots: Vec<String> = vec![];
+                    while let Some((k, _)) = st.next() {
+                        gots.push(String::from_utf8_lossy(k).into_owned());
+                    }
+                    let wm = map.search_with_state(&lev);
+                    let wm = match kind { 0 => wm.ge(b), 1 => wm.gt(b), 2 => wm.le(b), _ => wm.lt(b) };
+                    let mut st = wm.into_stream();
+                    let mut gotm: Vec<String> = vec![];
+                    while let Some((k, _, _)) = st.next() {
+                        gotm.push(String::from_utf8_lossy(k).into_owned());
+                    }
+                    if got != wb || gots != wb || gotm != wb {
+                        return Err(format!("Levenshtein({:?},{}) searched with bound {} {:?}: search gave {} keys, Set::search_with_state {}, Map::search_with_state {}, expected {}", q, d, ["ge", "gt", "le", "lt"][kind], b, got.len(), gots.len(), gotm.len(), wb.len()));
+                    }
+                }
+            }
         }
         let wantc: Vec<String> = keys_sorted.iter().filter(|k| !within(k)).cloned().collect();
         let gotc = set.search((&lev).complement()).into_stream().into_strs().map_err(|e| format!("{:?}", e))?;
@@ -254,7 +283,7 @@ pub fn plan(tier: Tier) -> Plan {
     let mut p = Plan::new("C17", "model_checking");
     let thorough = tier.thorough();
     let klen = if thorough { 5 } else { 4 };
-    p.rule = format!("alphabet A8 = {{a, e-acute, e-circumflex, U+2603, U+2602, U+1F600, U+1F601, U+1D11E}} (1/2/2/3/3/4/4/4 bytes; pairs sharing lead and continuation bytes); ALL queries q with |q| <= 3 (585) x d in {{0,1,2}} x ALL keys k with |k| <= {} : the UTF-8 bytes of k are fed through start/accept and is_match is compared with Wagner-Fischer on scalar values; can_match must be true on every proper prefix of a matching key; additionally all |q| <= 2 (thorough 3) x |k| <= 3 (4) over A11 = A8 + three characters sharing only the FINAL byte with a character of A8, and all |q| <= 6 (7) x |k| <= 6 (8) over {{a, b, e-acute}} (long queries with repeated characters); the same queries as Set/Map::search (also under complement() and starts_with()) over the set of all keys of length <= 3; state limit: for every (q,d) with |q| <= 2, N = states of the unlimited build (hook H4), new_with_limit(q,d,l) for every l in 0..=N+2 is TooManyStates(l) iff l < N and otherwise answers like the unlimited automaton; finite family of large automata behind new_with_limit(3000000): sentences of 16..70 characters (ASCII and accented) with d = 1..4 (up to more than 2^16 states), each against a systematic family of keys 0..5 edits away (every start position x strides 1,3,11), byte walk and Set::search. non-trivial = (q,d,k) triples with q != k and both non-empty", klen);
+    p.rule = format!("alphabet A8 = {{a, e-acute, e-circumflex, U+2603, U+2602, U+1F600, U+1F601, U+1D11E}} (1/2/2/3/3/4/4/4 bytes; pairs sharing lead and continuation bytes); ALL queries q with |q| <= 3 (585) x d in {{0,1,2}} x ALL keys k with |k| <= {} : the UTF-8 bytes of k are fed through start/accept and is_match is compared with Wagner-Fischer on scalar values; can_match must be true on every proper prefix of a matching key; additionally all |q| <= 2 (thorough 3) x |k| <= 3 (4) over A11 = A8 + three characters sharing only the FINAL byte with a character of A8, and all |q| <= 6 (7) x |k| <= 6 (8) over {{a, b, e-acute}} (long queries with repeated characters); the same queries as Set/Map::search (also under complement() and starts_with(), and with each of ge/gt/le/lt at the first, middle and last matching key through search and search_with_state) over the set of all keys of length <= 3; state limit: for every (q,d) with |q| <= 2, N = states of the unlimited build (hook H4), new_with_limit(q,d,l) for every l in 0..=N+2 is TooManyStates(l) iff l < N and otherwise answers like the unlimited automaton; finite family of large automata behind new_with_limit(3000000): sentences of 16..70 characters (ASCII and accented) with d = 1..4 (up to more than 2^16 states), each against a systematic family of keys 0..5 edits away (every start position x strides 1,3,11), byte walk and Set::search. non-trivial = (q,d,k) triples with q != k and both non-empty", klen);
     p.assumptions = vec!["edit distance = insertions, deletions, substitutions of Unicode scalar values (no transpositions)".into()];
     let queries = strings(3);
     let keys = Arc::new(strings(klen));
